@@ -1,5 +1,6 @@
 """C13 - failures in any chain surface as errors of the parallel sampler (structural clauses)."""
 from .facts import path_ends, loc, strip_generics, hir_walk
+from .facts import vt_walk as vt_walk_
 from . import common as K
 from . import err as E
 
@@ -219,6 +220,70 @@ def r3(F, R):
                     R.ok("C13-R3", key, site, "set_position error is kept and returned (%s)" % good[0].detail)
                 else:
                     R.bad("C13-R3", key, site, "set_position error does not reach the worker's result: %s" % outs)
+    # a successful (re)try must leave the remembered error cleared: no path from the Ok outcome of set_position to the
+    # loop exit may keep `error = Some(earlier failure)`
+    for b in workers:
+        for bb, t in b.calls_to(lambda c: path_ends(c["path"], "Chain::set_position")):
+            loops = [body for h, body in b.natural_loops().items() if bb in body]
+            if not loops:
+                continue
+            loop = min(loops, key=len)
+            res_l = t["dest"]["l"]
+            # the Option local that remembers the error
+            err_locals = set()
+            for bi in loop:
+                for st in b.blocks[bi]["stmts"]:
+                    if st["k"] == "assign" and st["rv"]["k"] == "agg" and st["rv"].get("variant") == "Some" and not st["pl"]["p"]:
+                        v = b.value(st["rv"]["ops"][0])
+                        if any(n_[0] == "downcast" and n_[2] == "Err" for n_ in vt_walk_(v)):
+                            err_locals.add(st["pl"]["l"])
+            # follow moves of the Some(..) temp into the user variable
+            changed = True
+            while changed:
+                changed = False
+                for bi in loop:
+                    for st in b.blocks[bi]["stmts"]:
+                        if st["k"] == "assign" and st["rv"]["k"] == "use" and st["rv"]["op"]["k"] in ("move", "copy") and \
+                                st["rv"]["op"]["pl"]["l"] in err_locals and not st["pl"]["p"] and st["pl"]["l"] not in err_locals:
+                            err_locals.add(st["pl"]["l"])
+                            changed = True
+            site = "%s @%s" % (b.path, loc(t["span"]))
+            key = b.path + ":retry-clears-error"
+            if not err_locals:
+                continue
+            clear_blocks = set()
+            read_blocks = set()
+            for bi in range(len(b.blocks)):
+                for st in b.blocks[bi]["stmts"]:
+                    if st["k"] != "assign":
+                        continue
+                    if st["pl"]["l"] in err_locals and not st["pl"]["p"]:
+                        v = b.rvalue_value(st["rv"])
+                        if v[0] == "agg" and str(v[1]).endswith("Option::None"):
+                            clear_blocks.add(bi)
+                    if st["rv"]["k"] == "discr" and st["rv"]["pl"]["l"] in err_locals and bi not in loop:
+                        read_blocks.add(bi)
+            # Ok edge of the switch on the result
+            ok_targets = []
+            for bi in loop:
+                tt = b.blocks[bi]["term"]
+                if tt["k"] == "switch" and tt.get("enum_place", {}).get("l") == res_l:
+                    for a in tt["arms"]:
+                        if a["name"] == "Ok":
+                            ok_targets.append(a["target"])
+                    if not any(a["name"] == "Ok" for a in tt["arms"]) and any(a["name"] == "Err" for a in tt["arms"]):
+                        ok_targets.append(tt["otherwise"])
+            leak = False
+            for ot in ok_targets:
+                reach = b.reach_from(ot, avoid=clear_blocks) if ot not in clear_blocks else set()
+                if reach & read_blocks:
+                    leak = True
+            if not ok_targets:
+                R.bad("C13-R3", key, site, "cannot find the Ok outcome of set_position in the retry loop")
+            elif leak:
+                R.bad("C13-R3", key, site, "a successful set_position can leave the retry loop while an earlier failure is still remembered: the chain then reports 'All initialization points failed'")
+            else:
+                R.ok("C13-R3", key, site, "success path clears the remembered error before leaving the retry loop")
     if not sent:
         R.bad("C13-R3", "worker:send-result", "-", "the worker closure's result is not sent on the results channel")
     R.floor("C13-R3", 2)
